@@ -143,8 +143,17 @@ CLAIMED["C19"] = (
     "zero-copy views made by pyarrow/pandas and pandas objects handed out from caches are outside",
     "DESIGN.md 4 C19")
 
+CLAIMED["C11"] = (
+    "in part (single key): for every code sequence, values, null placement and boolean mask within the bound, the real public reductions return the labels "
+    "in ascending order by default, in category order for categorical keys and in first-appearance order with sort=False; exactly the labels with a "
+    "selected row are listed (every label with observed_only=False), each once; a single 1-D input gives a Series named like the input, a list / dict / "
+    "2-D array gives a frame with one column per input in input order (dict keys, Series names, _arr_i otherwise), and each column equals the result "
+    "for that input alone; N<=3, G<=2 (quick), N<=4, G<=3 (thorough)",
+    "several keys (lexicographic MultiIndex order, one index level per key named after the keys), index names and polars/pyarrow/frame inputs are NOT "
+    "decided; the flat pandas objects are a labelled contract model (DESIGN 0 item 9); _preprocess_arguments is cut to the real "
+    "convert_data_to_arr_list_and_keys; candidates are replayed through GroupBy(keys, sort=...) with real containers", "DESIGN.md 4 C11")
+
 NOT_APPLICABLE = {
-    "C11": "labelling/order/shape are decided entirely by pandas Index/MultiIndex/DataFrame operations (C extension semantics); nothing symbolic to quantify over within reach of the encoder (DESIGN.md 5)",
     "C14": "margins and crosstab are reindex/groupby(level)/concat/unstack on pandas objects; not encodable (DESIGN.md 5)",
     "C17": "the facade is pandas objects end to end and its oracle is pandas' own groupby; only structural argument routing would be within reach (DESIGN.md 5)",
     "C18": "raise-versus-return is decided by concrete len()/Index.equals comparisons in pandas-level glue; a solver would only enumerate a handful of integers (DESIGN.md 5)",
